@@ -8,7 +8,7 @@ from .. import AnalysisError
 from ..absint import EvalRaise, EvalReturn, Evaluator, Opaque, Unknown
 from ..cfg import describe_path, no_exc
 from ..program import FuncInfo, ancestors, enclosing_stmt, norm, walk_local
-from . import fa
+from . import fa, medform
 from .common import check_none_defaults
 
 EXPLANATION = (
@@ -373,6 +373,11 @@ def run(ctx) -> None:
     ctx.rule("C18.open", "finite domain: open_exchanges number/boolean handling", floor=2)
     ctx.rule("C18.bigm", "T5: one big-M over all exchange bounds", floor=1)
     ctx.rule("C18.capture", "T6: growth constraint built from the objective before it is replaced", floor=1)
+    ctx.rule("C18.formulation", "formulation: minimal_medium poses the documented problem and reads the medium off the answer (oracle evaluation)", floor=8)
+    try:
+        medform.check_minimal_medium(ctx, "C18.formulation")
+    except AnalysisError as exc:
+        ctx.defer(str(exc))
     check_convention(ctx)
     check_none(ctx)
     check_open(ctx)
